@@ -1,9 +1,9 @@
 package props
 
 import (
-	"io"
 	"bytes"
 	"fmt"
+	"io"
 
 	"verif/core"
 	"verif/ref"
